@@ -303,6 +303,9 @@ func (r *Report) writeEvidence(ps *propSummary, viol int) {
 			for a := range ob.fn.assumptions {
 				assumptions[a] = true
 			}
+			if strings.Contains(ob.Func, "$") {
+				assumptions[ob.Func+": a closure is verified as a sequential function of its own; its captured variables are heap cells that nothing else writes while it runs (a goroutine body: no interleaving is considered)"] = true
+			}
 			for a, n := range ob.fn.abstracted {
 				abstracted[ob.Func+": "+a] += n
 			}
@@ -324,7 +327,7 @@ func (r *Report) writeEvidence(ps *propSummary, viol int) {
 	for _, ob := range ps.known {
 		knownHit = append(knownHit, ob.ID)
 	}
-	var assumeList []string
+	assumeList := []string{}
 	for a := range assumptions {
 		assumeList = append(assumeList, a)
 	}
